@@ -39,6 +39,7 @@ pub mod idx;
 pub mod store;
 pub mod tm;
 pub mod wm;
+pub mod split;
 
 pub fn registry() -> Vec<(&'static str, fn())> {
     let mut v = Vec::new();
@@ -52,5 +53,6 @@ pub fn registry() -> Vec<(&'static str, fn())> {
     v.extend_from_slice(store::ALL);
     v.extend_from_slice(tm::ALL);
     v.extend_from_slice(wm::ALL);
+    v.extend_from_slice(split::ALL);
     v
 }
